@@ -164,4 +164,8 @@ Emit == (EmitCases /\ pc = "done") =>
 Judge(rec) == /\ Len(rec.post) = Len(rec.pre)
               /\ \A m \in DOMAIN rec.pre :
                    GcPostMetric(PreData(rec.pre[m]), rec.pre[m].limit, rec.T, rec.post[m])
+\* a SECOND pass on a store that has been through one already (what a later pass finds must not depend on what an
+\* earlier pass saw): rec = [T, limits, before, post] with the stores in Data form <<label, time, expiry, value>>
+Judge2(rec) == /\ Len(rec.post) = Len(rec.before)
+               /\ \A m \in DOMAIN rec.before : GcPostMetric(rec.before[m], rec.limits[m], rec.T, rec.post[m])
 =============================================================================
